@@ -45,6 +45,14 @@ CLOSURES = [
     ("k = 10\nmk = k => xs => [xs where (k => k > 0), k]\nF = mk(5)", ["k", "xs", "mk"], ["([1])"]),
     ("k = 10\nF = () => do {\n  g9 = k => k\n  return [g9(1), k]\n}", ["k", "g9"], ["()"]),
     ("a1 = 1\nb1 = 2\nF = () => [reduce([1], (a1, b1) => a1 + b1, 0), a1, b1]", ["a1", "b1"], ["()"]),
+    # the body's do-block re-binds a captured name from its own captured value
+    ("y = 10\nF = x => do {\n  y = y + x\n  return y\n}", ["y", "x"], ["(1)"]),
+    ("y = 10\nmk = y => (x => do {\n  y = y + x\n  return y\n})\nF = mk(7)", ["y", "x", "mk"], ["(1)"]),
+    ("k = 2\nF = x => do {\n  k = k * x\n  g9 = () => k\n  return [k, g9()]\n}", ["k", "x", "g9"], ["(3)"]),
+    # a function named like one of its captured names (F8, repaired): the captured value is what it sees
+    ("g = 7\nF = () => do {\n  g = () => g\n  return g()\n}", ["g"], ["()"]),
+    # surplus arguments for optional parameters are an error from every call site
+    ("F = (a, b?) => [a, b]", ["a", "b"], ["(1)", "(1, 2)", "(1, 2, 3)"]),
 ]
 
 
